@@ -114,13 +114,13 @@ CLAIMED["C06"] = {
     "technique": "TLA+ specifications of literal decoding (escape rules, literal termination, numeric-literal automaton) explored exhaustively by TLC as generators with computed values; CPython cross-validation of the specification; values replayed into the parser",
 }
 CLAIMED["C07"] = {
-    "text": "FString.tla defines f-string bodies as sequences of literal items (text, non-ASCII, doubled braces, escapes incl. octal, hexadecimal and named ones, a backslash pair, ':' '!' '=' outside fields) and replacement fields: 38 expressions containing every character the field scanner treats specially (all bracket kinds, strings holding braces/colons/'!'/'=', '!=' '<=' '==' '>=' comparisons, walrus, lambda, nested f-strings with conversion and nested spec, a dict display needing the blank after '{', tuples with and without parentheses, starred, yield, conditional), conversions x 9 format specs (empty, text, nested fields, nested conversion, escape, non-ASCII), and the '=' form with and without blanks, in 8 literal forms (f/F/rf/fR/Rf/FR x four quote styles), alone or between plain/u/f neighbours (implicit concatenation). The specification computes Parts: merged text pieces (also across concatenated literals), fields with expression source, conversion code (repr default of the '=' form) and spec pieces, and the exact echoed text. TLC enumerates every body (all 109 items up to 2; 14 core items up to 3 quick / 4 thorough). Each case is validated against CPython's tree of the same source (0 disagreements), then the parser's JoinedStr must be exactly Parts and every field expression's tree, ranges included, must equal the expression parsed on its own moved to the byte offset of its text in the file (literal placed after a non-ASCII comment line inside 'x = (...)').",
+    "text": "FString.tla defines f-string bodies as sequences of literal items (text, non-ASCII, doubled braces, escapes incl. octal, hexadecimal and named ones, a backslash pair, ':' '!' '=' outside fields) and replacement fields: 38 expressions containing every character the field scanner treats specially (all bracket kinds, strings holding braces/colons/'!'/'=', '!=' '<=' '==' '>=' comparisons, walrus, lambda, nested f-strings with conversion and nested spec, a dict display needing the blank after '{', tuples with and without parentheses, starred, yield, conditional), conversions x 9 format specs (empty, text, nested fields, nested conversion, escape, non-ASCII), and the '=' form with and without blanks, in 8 literal forms (f/F/rf/fR/Rf/FR x four quote styles), alone or between plain/u/f neighbours (implicit concatenation). The specification computes Parts: merged text pieces (also across concatenated literals), fields with expression source, conversion code (repr default of the '=' form) and spec pieces, and the exact echoed text. TLC enumerates every body (all 109 items up to 2; 14 core items up to 3 quick / 4 thorough). Each case is validated against CPython's tree of the same source (0 disagreements), then the parser's JoinedStr must be exactly Parts and every field expression's tree, ranges included, must equal the expression parsed on its own moved to the byte offset of its text in the file (literal placed after a non-ASCII comment line inside 'x = (...)'). FStringScan.tla is the scanner itself as a machine (mirror of parse_fstring / parse_formatted_value / parse_spec: delimiter stack, two-character operators, conversion and '=' detection at depth 0, spec re-entry one level deeper, inner strings, doubled braces at top level only, every error exit); TLC checks ScanTotal and PartsShape on every body up to 4 (quick) / 5 (thorough) characters over a 15-character alphabet and emits the outcome of each; the parser must return exactly that outcome (same FStringErrorType, or the same parts), and CPython must accept exactly the bodies whose scan succeeds with well-formed expressions.",
     "design_ref": "DESIGN.md section 6 C07",
     "note": "Pre-PEP 701 rules (CPython 3.11 is the reference): an unparenthesised tuple in a field has the extent of the surrounding braces in the reference too; expressions with backslashes or the literal's own quote are outside the reference language; ranges of literal pieces are not compared.",
-    "technique": "TLA+ generative specification of f-string bodies with the reference decomposition computed in the spec; exhaustive TLC enumeration; CPython cross-validation; decomposition and field-expression trees/ranges replayed into the parser",
+    "technique": "TLA+ generative specification of f-string bodies with the reference decomposition computed in the spec, and a TLA+ mirror of the field scanner model-checked and enumerated over all short bodies; CPython cross-validation; decomposition, outcomes and field-expression trees/ranges replayed into the parser",
 }
 CLAIMED["C04"] = {
-    "text": "PyGen.tla's builder is extended with constructors for exactly one deliberately invalid construct per program (state variable mut = the broken rule): 12 malformed number shapes, 10 malformed string/bytes forms (unterminated, bad \\x/\\u/\\U/\\N, non-ASCII bytes, bytes/text mixing in three orders), 16 malformed f-strings (one per FStringErrorType path), unstartable characters, junk after a continuation backslash, four mismatched bracket pairs, parenthesised lone * and **, six bad call argument lists and three bad class headers, eleven bad parameter lists (duplicates across every parameter kind, default order, bare star) for def, async def and lambda, and 'as _' patterns; the ordinary constructors build every program of three sub-languages around the invalid construct, so each rule is exercised at every site (operands, arguments, subscripts, lambda bodies and defaults, decorators, class bases, returns annotations, statement positions and nested blocks, sequence/or/class/mapping patterns). RuleKinds(rule) gives the error kinds that name the rule. Every mutated program must be rejected by CPython (parser, or compiler message for the two rules CPython checks later; validates the catalogue), and by the parser with a kind in RuleKinds and an offset inside the offending construct's logical line (from the specification's range marks). Lexer-level rules reuse Lexer.tla: for every class string (five alphabets incl. an indentation alphabet up to 7/8 characters) whose first error the machine predicts (NestingError, IndentationError, TabError, TabsAfterSpaces, UnrecognizedToken, LineContinuationError, Eof, number and string errors) lex must report that kind at that offset and parse must reject with it. Every erroneous literal of StrLit.tla must be rejected with a string/unicode error.",
+    "text": "PyGen.tla's builder is extended with constructors for exactly one deliberately invalid construct per program (state variable mut = the broken rule): 12 malformed number shapes, 10 malformed string/bytes forms (unterminated, bad \\x/\\u/\\U/\\N, non-ASCII bytes, bytes/text mixing in three orders), 16 malformed f-strings (one per FStringErrorType path), unstartable characters, junk after a continuation backslash, four mismatched bracket pairs, parenthesised lone * and **, six bad call argument lists and three bad class headers, eleven bad parameter lists (duplicates across every parameter kind, default order, bare star) for def, async def and lambda, and 'as _' patterns; the ordinary constructors build every program of three sub-languages around the invalid construct, so each rule is exercised at every site (operands, arguments, subscripts, lambda bodies and defaults, decorators, class bases, returns annotations, statement positions and nested blocks, sequence/or/class/mapping patterns). RuleKinds(rule) gives the error kinds that name the rule. Every mutated program must be rejected by CPython (parser, or compiler message for the two rules CPython checks later; validates the catalogue), and by the parser with a kind in RuleKinds and an offset inside the offending construct's logical line (from the specification's range marks). Lexer-level rules reuse Lexer.tla: for every class string (five alphabets incl. an indentation alphabet up to 7/8 characters) whose first error the machine predicts (NestingError, IndentationError, TabError, TabsAfterSpaces, UnrecognizedToken, LineContinuationError, Eof, number and string errors) lex must report that kind at that offset and parse must reject with it. Every erroneous literal of StrLit.tla must be rejected with a string/unicode error. FStringScan.tla (the f-string scanner as a machine) predicts the outcome, error kind included, of every field body up to 4/5 characters over its alphabet; the parser must report exactly that.",
     "design_ref": "DESIGN.md section 6 C04",
     "note": "Quick tier strides the mutated programs to 40000 per sub-language; known finding F-C04-1 ('*, **kw' accepted; pinned by existing tests).",
     "technique": "TLA+ generative grammar with single-violation constructors and a rule -> error-kind table, explored exhaustively by TLC; TLA+ lexer machine predicting the first error of every class string; CPython cross-validation of the catalogue; replay into lex/parse",
